@@ -24,7 +24,7 @@ import (
 	"github.com/formancehq/ledger/internal/engine/command"
 	"github.com/formancehq/ledger/internal/engine/utils/batching"
 	"github.com/formancehq/ledger/internal/machine"
-	"github.com/formancehq/ledger/internal/verifhook"
+	"github.com/formancehq/ledger/verifharness/hookctx"
 	"github.com/formancehq/stack/libs/go-libs/logging"
 	"github.com/formancehq/stack/libs/go-libs/metadata"
 )
@@ -196,6 +196,10 @@ func infoFrom(ctx context.Context) *clientInfo {
 	return ci
 }
 
+func withInfo(ctx context.Context, ci *clientInfo) context.Context {
+	return hookctx.With(context.WithValue(ctx, ctxKey{}, ci), ci)
+}
+
 // Sim is one simulated history in progress.
 type Sim struct {
 	mu      sync.Mutex
@@ -211,25 +215,13 @@ type Sim struct {
 	trace   bool
 }
 
-type handler struct{}
+func (ci *clientInfo) Yield(ctx context.Context, point string) { ci.sim.gate(ci, point, nil) }
 
-func (handler) Yield(ctx context.Context, point string) {
-	if ci := infoFrom(ctx); ci != nil {
-		ci.sim.gate(ci, point, nil)
-	}
+func (ci *clientInfo) Await(ctx context.Context, point string, ch <-chan struct{}) {
+	ci.sim.gate(ci, point, ch)
 }
 
-func (handler) Await(ctx context.Context, point string, ch <-chan struct{}) {
-	if ci := infoFrom(ctx); ci != nil {
-		ci.sim.gate(ci, point, ch)
-	}
-}
-
-func (handler) BeforeLock(ctx context.Context, name string, mu *sync.Mutex) {
-	ci := infoFrom(ctx)
-	if ci == nil {
-		return
-	}
+func (ci *clientInfo) BeforeLock(ctx context.Context, name string, mu *sync.Mutex) {
 	free := func() bool {
 		if mu.TryLock() {
 			mu.Unlock()
@@ -244,8 +236,8 @@ func (handler) BeforeLock(ctx context.Context, name string, mu *sync.Mutex) {
 	}
 }
 
-func (handler) Expose(ctx context.Context, name string, v any) {
-	if ci := infoFrom(ctx); ci != nil && name == "job.pool" {
+func (ci *clientInfo) Expose(ctx context.Context, name string, v any) {
+	if name == "job.pool" {
 		if p, ok := v.(*pond.WorkerPool); ok {
 			ci.sim.mu.Lock()
 			ci.gen.pool = p
@@ -254,9 +246,7 @@ func (handler) Expose(ctx context.Context, name string, v any) {
 	}
 }
 
-var installOnce sync.Once
-
-func install() { installOnce.Do(func() { verifhook.SetHandler(handler{}) }) }
+func install() { hookctx.Install() }
 
 func (s *Sim) curStep() int { s.mu.Lock(); defer s.mu.Unlock(); return s.step }
 
@@ -405,7 +395,7 @@ func (s *Sim) newGeneration() error {
 		return fmt.Errorf("Init: %w", err)
 	}
 	runner := &clientInfo{id: -1, gen: g, sim: s}
-	g.runCtx = context.WithValue(initCtx, ctxKey{}, runner)
+	g.runCtx = withInfo(initCtx, runner)
 	s.mu.Lock()
 	s.gens = append(s.gens, g)
 	s.cur = g
@@ -565,7 +555,7 @@ func (s *Sim) spawn(i int) {
 	g := s.cur
 	ci := &clientInfo{id: i, gen: g, sim: s}
 	ctx := logging.ContextWithLogger(context.Background(), nopLogger{})
-	ctx = context.WithValue(ctx, ctxKey{}, ci)
+	ctx = withInfo(ctx, ci)
 	ctx, ci.cancel = context.WithCancel(ctx)
 	s.mu.Lock()
 	g.clients = append(g.clients, ci)
